@@ -5,9 +5,10 @@ import sys
 VERIF = os.path.dirname(os.path.dirname(os.path.abspath(__file__)))
 REPO = os.environ.get("PCV_REPO", "/repo")
 SPEC_DIR = os.path.join(VERIF, "spec")
-BUILD_DIR = os.path.join(VERIF, "build")
-EVIDENCE_DIR = os.path.join(VERIF, "evidence")
-REPLAY_DIR = os.path.join(VERIF, "replays")
+# scratch / output locations can be redirected (used when several mutant trees are checked in parallel)
+BUILD_DIR = os.environ.get("PCV_BUILD_DIR", os.path.join(VERIF, "build"))
+EVIDENCE_DIR = os.environ.get("PCV_EVIDENCE_DIR", os.path.join(VERIF, "evidence"))
+REPLAY_DIR = os.environ.get("PCV_REPLAY_DIR", os.path.join(VERIF, "replays"))
 GUARD = "PHYCLONE_VERIF"
 
 
